@@ -77,6 +77,71 @@ def task_open_resume(ctx):
 # resumed step loop: Recoverable(c) at start  =>  C11 invariant up to `steps`  (content = uninterrupted content)
 
 
+
+_ONCE = {}
+
+
+def _once(fn):
+    """run a (slow, input-free) replay at most once per process"""
+    def rp(model):
+        if fn not in _ONCE:
+            try:
+                _ONCE[fn] = fn(model)
+            except Exception as exc:  # noqa
+                _ONCE[fn] = {"reproduced": False, "error": repr(exc)[:300]}
+        return _ONCE[fn]
+    return rp
+
+_KILL_SCRIPT = r"""
+import os, sys, io, contextlib
+import torch
+torch.set_default_dtype(torch.float64)
+from seqm.seqm_functions.constants import Constants
+from seqm.Molecule import Molecule
+import seqm.MolecularDynamics as M
+d = sys.argv[1]
+params = {"method": "AM1", "scf_eps": 1e-7, "scf_converger": [1], "sp2": [False, 1e-5], "elements": [0, 1], "learned": [], "pair_outer_cutoff": 1e10, "eig": True}
+mol = Molecule(Constants(), params, torch.tensor([[[0.0, 0, 0], [0.80, 0, 0]]]), torch.tensor([[1, 1]]))
+md = M.Molecular_Dynamics_Basic(params, timestep=0.5, Temp=0.0, output={"molid": [0], "prefix": os.path.join(d, "md"), "print every": 0, "checkpoint every": 2, "xyz": 1, "h5": {"data": 1, "coordinates": 1}})
+real_save = md.save_checkpoint
+def save_and_die(*a, **k):
+    real_save(*a, **k)
+    if k.get("step_done", 0) >= 4:
+        os._exit(9)   # hard kill right after the checkpoint became visible: no finally, no atexit, no buffer flush
+md.save_checkpoint = save_and_die
+with contextlib.redirect_stdout(io.StringIO()):
+    md.run(mol, 8)
+"""
+
+
+def replay_kill_after_checkpoint(model):
+    """real code in a child process: AM1 H2 BOMD with XYZ and HDF5 output every step, checkpoint every 2 steps; the process is
+    killed (os._exit) right after the checkpoint of step 4 has been written.  Every XYZ frame with a label <= 4 must be in the
+    file on disk at that moment, and the HDF5 file must hold those steps."""
+    import os, subprocess, sys, tempfile, shutil, glob
+
+    d = tempfile.mkdtemp(prefix="pyvc_c10_")
+    try:
+        env = dict(os.environ, PYTHONWARNINGS="ignore", OMP_NUM_THREADS="2")
+        p = subprocess.run([sys.executable, "-c", _KILL_SCRIPT, d], capture_output=True, text=True, timeout=900, env=env)
+        files = sorted(os.path.basename(f) for f in glob.glob(os.path.join(d, "*")))
+        xyz = [f for f in glob.glob(os.path.join(d, "*.xyz"))]
+        frames = 0
+        for f in xyz:
+            lines = open(f).read().splitlines()
+            frames += sum(1 for ln in lines if ln.strip() == "2")
+        ckpt = [f for f in files if f.endswith(".pt")]
+        out = {"child_exit_code": p.returncode, "files_on_disk": files, "xyz_frames_on_disk_when_killed_after_the_step-4_checkpoint": frames, "frames_required": "labels up to 4 (at least 4 frames)",
+               "checkpoint_present": bool(ckpt)}
+        if p.returncode != 9:
+            out.update(reproduced=False, error=(p.stderr or p.stdout)[-300:])
+            return out
+        out["reproduced"] = bool(ckpt) and frames < 4
+        return out
+    finally:
+        shutil.rmtree(d, ignore_errors=True)
+
+
 def _on_ckpt(env, md, molecule, step_done):
     """O1: when the checkpoint for label c is written, every row written so far has been flushed (durable)."""
     ev = env["disk"].events
@@ -92,7 +157,7 @@ def _on_ckpt(env, md, molecule, step_done):
         elif e["kind"] == "textflush":
             last_flush[e["file"]] = e["n"]
     ok = all(last_flush.get(f, -1) > n for f, n in dirty.items())
-    oblige("checkpoint.rows-durable-before-checkpoint-becomes-visible", E.const(ok))
+    oblige("checkpoint.rows-durable-before-checkpoint-becomes-visible", E.const(ok), replay=_once(replay_kill_after_checkpoint))
 
 
 def _resume_task(data_on, posmask):
